@@ -3,26 +3,25 @@
 import json, os, subprocess
 ROOT = os.path.dirname(os.path.dirname(os.path.abspath(__file__)))
 
-CLUSTER_TEXT = ("TLC model-checks the focused configuration of DEngine.tla (node entry points as actions, repaired design) "
-                "for this property's invariants; TLC-simulated behaviours of the as-implemented model and seeded random "
-                "schedules are replayed step by step into real d-engine Raft nodes (production election / replication / "
-                "commit / apply code, simulated transport and storage); TLC then judges every recorded state with the "
-                "property monitors of DETrace.tla and checks each step against the DECore operators (conformance).")
-CLUSTER_NOTE = ("trusted: TLC, the step harness' projection of node state, the in-memory storage engine and state machine "
-                "used in cluster runs; bounds 3 nodes and the constants reported in the evidence file; exhaustive only "
-                "at design level within those constants")
-
+import importlib, sys
+sys.path.insert(0, os.path.dirname(os.path.abspath(__file__)))
+ENGINE_MODULES = ["cluster", "cluster_ext", "kv", "store", "snapxfer", "watch", "funcs"]
 CHECKS = {}
-for pid, what in {
-    "C01": "at most one leader per term", "C02": "one vote per term, term never decreases across crashes",
-    "C04": "log matching", "C05": "committed entries are never lost", "C06": "state machine safety",
-    "C07": "followers only commit leader-matching entries", "C08": "contiguous requests, gap-free logs",
-    "C09": "leader commit rule", "C10": "acknowledged writes are committed and durable",
-    "C14": "rejected writes are never applied", "C29": "one correct response per write",
-    "C31": "consistent leader notifications",
-}.items():
-    CHECKS[pid] = dict(engine="cluster", technique="TLA+/TLC model checking of DEngine.tla + trace validation of real-node executions (DETrace.tla)",
-                       category="model_checking", text=what + ": " + CLUSTER_TEXT, note=CLUSTER_NOTE, ref="DESIGN.md section 3 / 9")
+ENGINES = []
+for name in ENGINE_MODULES:
+    try:
+        mod = importlib.import_module(name)
+    except ModuleNotFoundError as e:
+        if e.name == name:
+            continue
+        raise
+    info = getattr(mod, "MANIFEST_INFO", {})
+    for pid, c in info.items():
+        CHECKS[pid] = dict(engine=mod.ENGINE["name"], technique=c["technique"], category=c.get("category", "model_checking"),
+                           text=c["text"], note=c["note"], ref=c.get("ref", "DESIGN.md section 3"))
+    if info:
+        ENGINES.append({"name": mod.ENGINE["name"], "path": "/verif/tools/%s.py" % name,
+                        "serves_properties": sorted(info.keys()), "kind_free_text": mod.ENGINE["kind"]})
 
 NOT_YET = {}
 
@@ -58,10 +57,7 @@ def main():
             "source_commits": hook_commits,
             "add_only": True,
         },
-        "engines": [
-            {"name": "cluster", "path": "/verif/tools/cluster.py", "serves_properties": sorted(p for p, c in CHECKS.items() if c["engine"] == "cluster"),
-             "kind_free_text": "DEngine.tla + DECore.tla (TLC), dv-cluster step harness over real Raft nodes, DETrace.tla trace judge"},
-        ],
+        "engines": ENGINES,
         "checks": checks,
         "notes": "All checks: ./check <id> [--tier quick|thorough]; exit 0 ok / 1 VIOLATION / 2 tool error. Known findings: /verif/known_findings.json.",
         "not_applicable": na,
